@@ -113,6 +113,14 @@ ProbeKeyOK(xf, it, q) ==        \* q = [k, contains, item, attr]   (item/attr: i
     IN /\ q.contains = (p # 0)
        /\ q.item = IF p = 0 THEN 0 ELSE it[p].id
        /\ q.attr \in {-1, IF p = 0 THEN 0 ELSE it[p].id}
+\* LASFile[k] for a session mnemonic k of the curve section returns the data of exactly that curve (-1 = not probed)
+ProbeLasOK(xf, it, q) == q.las \in {-1, LET p == Lookup(xf, it, q.k) IN IF p = 0 THEN 0 ELSE it[p].id}
+\* write() emits the original mnemonics, so after write -> read the originals are the same, every group is numbered :1..:n,
+\* and a section that was numbered that way gets the same session names again
+FreshNumbered(xf, it) == \A i \in DOMAIN it : NumberedGroup(xf, it, i)
+RoundTripOK(pre, post) == /\ Origs(post) = Origs(pre)
+                          /\ FreshNumbered(FALSE, post)
+                          /\ (FreshNumbered(FALSE, pre) => Sess(post) = Sess(pre))
 ProbeIntOK(it, q)   == q.item = LET p == PyPos(Len(it), q.i) IN IF p = 0 THEN 0 ELSE it[p].id
 ProbeSliceOK(it, q) == q.ids = Ids(PySlice(it, q.a, q.b))
 =============================================================================
